@@ -240,6 +240,27 @@ def Sys.step (h : Handover) (x : Sys) : Ev → Sys
 
 def Sys.run (h : Handover) (x : Sys) (es : List Ev) : Sys := es.foldl (Sys.step h) x
 
+/-! ### the repaired callbackStore as seen by one stream
+
+`callbackStore.Put` of the repaired store (Drand/Chain/CallbackStore.lean, `stepR`) never waits for a stream's callback and
+never skips it: when the stream's job channel is full the store ENDS the stream's registration — the callback is
+deregistered and its worker is left with what is queued followed by the close notice — which is exactly what `replaced`
+does to a stream. `Strm.queue` holds the job the worker has in its hands (inside `Send`) as well as the jobs in the
+channel, so the channel (capacity `cap`) is full when the queue holds `cap + 1` jobs. -/
+
+/-- the dispatch of `b` finds the job channel of this stream full -/
+def Strm.full (cap : Nat) (s : Strm) (b : Beacon) : Bool :=
+  s.attached && decide (b.round ≠ 0) && decide (cap + 1 ≤ s.queue.length)
+
+def Strm.onPutR (cap : Nat) (s : Strm) (b : Beacon) : Strm :=
+  if s.full cap b then s.replaced else s.onPut b
+
+def Sys.stepR (h : Handover) (cap : Nat) (x : Sys) : Ev → Sys
+  | .put b => { store := x.store.put b, s := x.s.onPutR cap b }
+  | e => Sys.step h x e
+
+def Sys.runR (h : Handover) (cap : Nat) (x : Sys) (es : List Ev) : Sys := es.foldl (Sys.stepR h cap) x
+
 /-! ### several streams over one callback store
 
 Callbacks are registered under "SyncChain-" + remote address, so two streams of one client connection share an id:
@@ -293,6 +314,10 @@ def effectOf (st : Store) (e : Own) (before after : Strm) : Effect :=
 def Net.put (n : Net) (b : Beacon) : Net :=
   { store := n.store.put b, streams := n.streams.map fun e => { e with s := e.s.onPut b } }
 
+/-- `Put` of the repaired store -/
+def Net.putR (cap : Nat) (n : Net) (b : Beacon) : Net :=
+  { store := n.store.put b, streams := n.streams.map fun e => { e with s := e.s.onPutR cap b } }
+
 def Net.own (h : Handover) (n : Net) (sid : String) (ev : Own) : Net :=
   match n.streams.find? (·.sid == sid) with
   | none => n
@@ -306,6 +331,23 @@ def Net.own (h : Handover) (n : Net) (sid : String) (ev : Own) : Net :=
           | .none => e
           | .add => { e with s := e.s.replaced }
           | .remove => { e with s := e.s.detached }
+        else e }
+
+/-- a stream handler that deregisters with the remover of ITS OWN registration (`remove := store.AddStreamCallback(…)`,
+`defer remove()`; reports/cb_fix_2.diff): when it ends, whatever another stream registered under the same id stays.
+Registering still replaces (and tells) the holder of the id. -/
+def Net.ownR (h : Handover) (n : Net) (sid : String) (ev : Own) : Net :=
+  match n.streams.find? (·.sid == sid) with
+  | none => n
+  | some me =>
+    let after := ((Sys.step h ⟨n.store, me.s⟩ ev.toEv)).s
+    let eff := effectOf n.store ev me.s after
+    { n with streams := n.streams.map fun e =>
+        if e.sid == sid then { e with s := after }
+        else if e.addr == me.addr then
+          match eff with
+          | .add => { e with s := e.s.replaced }
+          | _ => e
         else e }
 
 end Drand.Beacon.Stream
